@@ -43,6 +43,7 @@ type Exec struct {
 	// WidenAtEntry: explore, at every loop entry, one generic iteration (heap forgotten, loop phis unknown) that
 	// subsumes all iterations; concrete unrolling beyond Unroll visits is then simply cut. Keeps path counts linear.
 	WidenAtEntry bool
+	texts        map[string]textMeaning // abs_text.go
 	Stats      struct{ Instrs, Calls, Forks, Widen, CopyLoops int }
 }
 
@@ -187,6 +188,9 @@ func (ex *Exec) Call(st *State, fn *ssa.Function, args []Val, parent *Frame) []O
 		fr.stack = append(append([]*ssa.Function{}, parent.stack...), fn)
 	} else {
 		fr.stack = []*ssa.Function{fn}
+		if !ex.inInitGlobal { // (the evaluation of a global's initialiser materialises objects in the caller's state)
+			st = st.Clone() // a harness may run several calls from one prepared state: never refine it in place
+		}
 	}
 	for i, p := range fn.Params {
 		if i < len(args) {
@@ -632,11 +636,78 @@ func (ex *Exec) execFrom(fr *Frame, st *State, b *ssa.BasicBlock, idx int, prev 
 			}
 			return out
 		default:
+			if res := ex.textStep(fr, st, in); res != nil {
+				// a text operation that splits on the sign of the rendered number
+				v := in.(ssa.Value)
+				var out []Outcome
+				for _, r := range res {
+					f2 := fr.clone()
+					f2.regs[v] = r.ret
+					out = append(out, ex.execFrom(f2, r.st, b, i+1, prev)...)
+				}
+				return out
+			}
 			outc, stop := ex.step(fr, st, in)
 			if stop {
 				return outc
 			}
 		}
+	}
+	return nil
+}
+
+// textStep: indexing / slicing of a decimal text (abs_text.go). s[0] splits on the sign: '-' for negative numbers, a
+// digit otherwise; s[1:] of a negative number's text is the text of its magnitude.
+func (ex *Exec) textStep(fr *Frame, st *State, in ssa.Instruction) []callRes {
+	if ex.texts == nil {
+		return nil
+	}
+	switch x := in.(type) {
+	case *ssa.Index:
+		s, _ := ex.eval(fr, st, x.X).(*StrV)
+		m, ok := ex.textOfStr(st, s)
+		if !ok || m.dec == nil {
+			return nil
+		}
+		idx, _ := ex.eval(fr, st, x.Index).(*IntV)
+		if idx == nil {
+			return nil
+		}
+		if c, okc := st.ConstOf(idx); !okc || c != 0 {
+			return nil
+		}
+		v64 := st.Convert(m.dec, 64, true)
+		var out []callRes
+		neg := st.Clone()
+		if neg.Assume("<", v64, mkConst(0, 64, true)) {
+			out = append(out, callRes{st: neg, ret: mkConst('-', 8, false)})
+		}
+		pos := st.Clone()
+		if pos.Assume(">=", v64, mkConst(0, 64, true)) {
+			d := pos.freshInt("digit", 8, false)
+			pos.refineSym(d.T.Syms[0], '0', '9')
+			out = append(out, callRes{st: pos, ret: d})
+		}
+		return out
+	case *ssa.Slice:
+		s, _ := ex.eval(fr, st, x.X).(*StrV)
+		m, ok := ex.textOfStr(st, s)
+		if !ok || m.dec == nil || x.Low == nil || x.High != nil {
+			return nil
+		}
+		lo, _ := ex.eval(fr, st, x.Low).(*IntV)
+		if lo == nil {
+			return nil
+		}
+		if c, okc := st.ConstOf(lo); !okc || c != 1 {
+			return nil
+		}
+		v64 := st.Convert(m.dec, 64, true)
+		if isNeg, k := st.Decide("<", v64, mkConst(0, 64, true)); k && isNeg {
+			mag := st.Arith(token.SUB, mkConst(0, 64, true), v64, "")
+			return []callRes{{st: st, ret: &StrV{Text: &textMeaning{dec: mag}}}}
+		}
+		return nil
 	}
 	return nil
 }
